@@ -31,6 +31,7 @@
 #include <atomic>
 #include <chrono>
 #include <condition_variable>
+#include <cstdlib>
 #include <deque>
 #include <functional>
 #include <future>
@@ -49,7 +50,13 @@ using i64 = std::int64_t;
 
 namespace
 {
-    constexpr int STALL_S = 15;  // stall detector of the free-running mode (lost wake-up), seconds
+    // stall detector (lost wake-up / sender blocked for ever), seconds; HGV_PUSHQ_STALL_S shortens it for
+    // mutation runs, where many cases stall
+    const int STALL_S = [] {
+        const char *e = std::getenv("HGV_PUSHQ_STALL_S");
+        const int   v = e != nullptr ? std::atoi(e) : 0;
+        return v > 0 ? v : 15;
+    }();
 
     i64      us(DateTime t) { return t.time_since_epoch().count(); }
     DateTime dt(i64 v) { return DateTime{TimeDelta{v}}; }
